@@ -60,7 +60,7 @@ datastore has no influence. -/
 theorem C10_refines_fifo (key : Batch → Nat) (cfg : Cfg) (ops : List Op) (hp : ∀ op ∈ ops, op.plain = true) :
     (run key cfg ops).st.mem = (arun cfg [] ops).1 ∧ (run key cfg ops).outs = (arun cfg [] ops).2 := by
   show (runFrom key cfg {} ops).st.mem = _ ∧ (runFrom key cfg {} ops).outs = _
-  simpa using run_refines key cfg ops hp {}
+  simpa using run_refines key cfg ops hp {} ⟨rfl, rfl, rfl⟩
 
 /-- FIFO, exactly once (no restart): handed out ++ pending = accepted, as sequences – duplicates
 of contents included. -/
@@ -86,32 +86,36 @@ example :
 /-! ## 2. refused submissions leave no trace -/
 
 /-- A submission (or request) answered with an error, or an empty submission, changes neither memory
-nor the datastore. -/
+nor the datastore (nor anything else), whatever datastore faults are armed. -/
 theorem C10_rejected_no_trace (key : Batch → Nat) (cfg : Cfg) (s : St) (op : Op) (hp : op.plain = true)
     (hr : Out.refused (step key cfg s op).2 = true) : (step key cfg s op).1 = s := by
-  obtain ⟨s₁, t, _, hpl⟩ := step_cases key cfg s op
-  rw [hpl hp]
   cases op with
   | submit id b =>
-    rcases submit_cases key cfg s id b with ⟨o, h, _⟩ | ⟨h, _⟩
-    · have := hpl hp; simp only [step, h] at this; exact this.symm
+    rcases submitF_cases key cfg s id b with ⟨o, h, _⟩ | ⟨h, _⟩ | ⟨h, _⟩
+    · simp [step, h]
+    · simp [step, h, Out.refused] at hr
     · simp [step, h, Out.refused] at hr
   | add b =>
-    rcases addBatch_cases key cfg s b with ⟨h, _⟩ | ⟨h, _⟩
-    · have := hpl hp; simp only [step, h] at this; exact this.symm
+    rcases addBatchF_cases key cfg s b with ⟨h, _⟩ | ⟨h, _⟩ | ⟨h, _⟩
+    · simp [step, h]
+    · simp [step, h, Out.refused] at hr
     · simp [step, h, Out.refused] at hr
   | next id =>
-    rcases getNext_cases key cfg s id with ⟨o, h, _⟩ | ⟨b, r, h, _⟩
-    · have := hpl hp; simp only [step, h] at this; exact this.symm
+    rcases getNextF_cases key cfg s id with ⟨o, h, _⟩ | ⟨b, r, h, _⟩ | ⟨b, r, h, _⟩
+    · simp [step, h]
+    · simp [step, h, Out.refused] at hr
     · simp [step, h, Out.refused] at hr
   | qnext =>
-    rcases nextBatch_cases key s with ⟨h, _⟩ | ⟨b, r, h, _⟩
-    · have := hpl hp; simp only [step, h] at this; exact this.symm
+    rcases nextBatchF_cases key s with ⟨h, _⟩ | ⟨b, r, h, _⟩ | ⟨b, r, h, _⟩
+    · simp [step, h]
+    · simp [step, h, Out.refused] at hr
     · simp [step, h, Out.refused] at hr
   | restart => simp [Op.plain] at hp
   | load => simp [Op.plain] at hp
   | crashSubmit _ _ _ => simp [Op.plain] at hp
   | crashNext _ _ => simp [Op.plain] at hp
+  | restartMax _ => simp [Op.plain] at hp
+  | fail _ _ => simp [Op.plain] at hp
 
 /-- … and when the process dies during a refused operation the datastore is still unchanged. -/
 theorem C10_rejected_no_durable_trace (key : Batch → Nat) (cfg : Cfg) (s : St) (op : Op)
@@ -120,21 +124,59 @@ theorem C10_rejected_no_durable_trace (key : Batch → Nat) (cfg : Cfg) (s : St)
   | crashSubmit aw id b =>
     cases aw
     · rfl
-    · rcases submit_cases key cfg s id b with ⟨o, h, _⟩ | ⟨h, _⟩
+    · rcases submitF_cases key cfg s id b with ⟨o, h, _⟩ | ⟨h, _⟩ | ⟨h, _⟩
       · simp [step, h, reload]
+      · simp [step, h, Out.refused] at hr
       · simp [step, h, Out.refused] at hr
   | crashNext aw id =>
     cases aw
     · rfl
-    · rcases getNext_cases key cfg s id with ⟨o, h, _⟩ | ⟨b, r, h, _⟩
+    · rcases getNextF_cases key cfg s id with ⟨o, h, _⟩ | ⟨b, r, h, _⟩ | ⟨b, r, h, _⟩
       · simp [step, h, reload]
+      · simp [step, h, Out.refused] at hr
       · simp [step, h, Out.refused] at hr
   | restart => rfl
   | load => rfl
+  | restartMax _ => rfl
+  | fail _ _ => rfl
   | submit id b => rw [C10_rejected_no_trace key cfg s _ rfl hr]
   | add b => rw [C10_rejected_no_trace key cfg s _ rfl hr]
   | next id => rw [C10_rejected_no_trace key cfg s _ rfl hr]
   | qnext => rw [C10_rejected_no_trace key cfg s _ rfl hr]
+
+/-- A submission whose datastore `Put` failed (`err:store`; datastore errors are outside the property's
+quantifier, modelled for the correspondence) changes neither memory nor the datastore: the batch is not
+appended in memory, only the armed fault is consumed. -/
+theorem C10_store_error_no_trace (key : Batch → Nat) (cfg : Cfg) (s : St) (op : Op) (hp : op.plain = true)
+    (hr : (step key cfg s op).2 = .errStore) :
+    (step key cfg s op).1.mem = s.mem ∧ (step key cfg s op).1.disk = s.disk ∧ 0 < s.failPut := by
+  cases op with
+  | submit id b =>
+    rcases submitF_cases key cfg s id b with ⟨o, h, ho⟩ | ⟨h, _, hf⟩ | ⟨h, _⟩
+    · rcases ho with rfl | rfl | rfl <;> simp [step, h] at hr
+    · simp [step, h, putFailed, hf]
+    · simp [step, h] at hr
+  | add b =>
+    rcases addBatchF_cases key cfg s b with ⟨h, _⟩ | ⟨h, _, hf⟩ | ⟨h, _⟩
+    · simp [step, h] at hr
+    · simp [step, h, putFailed, hf]
+    · simp [step, h] at hr
+  | next id =>
+    rcases getNextF_cases key cfg s id with ⟨o, h, ho⟩ | ⟨b, r, h, _⟩ | ⟨b, r, h, _⟩
+    · rcases ho with rfl | rfl <;> simp [step, h] at hr
+    · simp [step, h] at hr
+    · simp [step, h] at hr
+  | qnext =>
+    rcases nextBatchF_cases key s with ⟨h, _⟩ | ⟨b, r, h, _⟩ | ⟨b, r, h, _⟩
+    · simp [step, h] at hr
+    · simp [step, h] at hr
+    · simp [step, h] at hr
+  | restart => simp [Op.plain] at hp
+  | load => simp [Op.plain] at hp
+  | crashSubmit _ _ _ => simp [Op.plain] at hp
+  | crashNext _ _ => simp [Op.plain] at hp
+  | restartMax _ => simp [Op.plain] at hp
+  | fail _ _ => simp [Op.plain] at hp
 
 /-- non-vacuity: the three refusals on a non-trivial state -/
 example :
@@ -145,38 +187,110 @@ example :
 /-! ## 3. the bound, and the datastore never holds anything but pending batches
 (every history: restarts, crashes, duplicates) -/
 
-/-- The queue bound is respected after every history. -/
-theorem C10_bound (key : Batch → Nat) (cfg : Cfg) (ops : List Op) (hm : 0 < cfg.max) :
-    (run key cfg ops).st.mem.length ≤ cfg.max :=
-  (J_run key cfg ops).bound hm
+/-- datastore errors are outside the property's quantifier; a failing `Put` is harmless and allowed in every
+theorem below, a failing `Delete` is excluded: no operation of the history arms one -/
+def NoDeleteFaults (ops : List Op) : Prop := ∀ op ∈ ops, op.armsDelete = false
+
+instance (ops : List Op) : Decidable (NoDeleteFaults ops) := by unfold NoDeleteFaults; infer_instance
+
+theorem NoDeleteFaults.take {ops : List Op} (h : NoDeleteFaults ops) (n : Nat) : NoDeleteFaults (ops.take n) :=
+  fun op ho => h op (mem_of_mem_take ho)
+
+/-- the history never restarts the node with another queue bound -/
+def BoundUnchanged (ops : List Op) : Prop := ∀ op ∈ ops, op.changesBound = false
+
+instance (ops : List Op) : Decidable (BoundUnchanged ops) := by unfold BoundUnchanged; infer_instance
+
+/-- The queue bound is respected after every history in which the configured bound stays the same. -/
+theorem C10_bound (key : Batch → Nat) (cfg : Cfg) (ops : List Op) (hm : 0 < cfg.max)
+    (hf : NoDeleteFaults ops) (hb : BoundUnchanged ops) :
+    (run key cfg ops).st.mem.length ≤ cfg.max := by
+  have h := run_induction_ops key cfg (fun r => J key cfg r.st ∧ B cfg r.st)
+    (fun op => op.armsDelete = false ∧ op.changesBound = false)
+    (fun r op h hr => ⟨J_step key h.1 op hr.1, B_step key h.1 h.2 op hr.1 hr.2⟩) {}
+    ⟨J_init key cfg, ⟨rfl, fun _ => by simp⟩⟩ ops (fun op ho => ⟨hf op ho, hb op ho⟩)
+  exact h.2.bound hm
+
+/-- The bound is an **admission** bound (every history, every bound the node was ever restarted with, every
+datastore fault): a submission is accepted only while fewer than `effMax` batches are pending, so right after an
+accepted submission at most `effMax` (the bound in force) are. -/
+theorem C10_admission_bound (key : Batch → Nat) (cfg : Cfg) (s : St) (op : Op) (hp : op.plain = true)
+    (hok : (step key cfg s op).2 = .ok) (hm : 0 < effMax cfg s) :
+    s.mem.length < effMax cfg s ∧ (step key cfg s op).1.mem.length ≤ effMax cfg (step key cfg s op).1 := by
+  have key_fact : ∀ b, full cfg s = false → s.mem.length < effMax cfg s ∧
+      (accept key s b).mem.length ≤ effMax cfg (accept key s b) := by
+    intro b hf
+    simp only [full, hm, decide_true, Bool.true_and, decide_eq_false_iff_not, Nat.not_le] at hf
+    exact ⟨hf, by simp only [accept, effMax, length_append, length_singleton] at hf ⊢; omega⟩
+  cases op with
+  | submit id b =>
+    rcases submitF_cases key cfg s id b with ⟨o, h, ho⟩ | ⟨h, _⟩ | ⟨h, hf, _⟩
+    · rcases ho with rfl | rfl | rfl <;> simp [step, h] at hok
+    · simp [step, h] at hok
+    · simp only [step, h]; exact key_fact b hf
+  | add b =>
+    rcases addBatchF_cases key cfg s b with ⟨h, _⟩ | ⟨h, _⟩ | ⟨h, hf, _⟩
+    · simp [step, h] at hok
+    · simp [step, h] at hok
+    · simp only [step, h]; exact key_fact b hf
+  | next id =>
+    rcases getNextF_cases key cfg s id with ⟨o, h, ho⟩ | ⟨b, r, h, _⟩ | ⟨b, r, h, _⟩
+    · rcases ho with rfl | rfl <;> simp [step, h] at hok
+    · simp [step, h] at hok
+    · simp [step, h] at hok
+  | qnext =>
+    rcases nextBatchF_cases key s with ⟨h, _⟩ | ⟨b, r, h, _⟩ | ⟨b, r, h, _⟩
+    · simp [step, h] at hok
+    · simp [step, h] at hok
+    · simp [step, h] at hok
+  | restart => simp [Op.plain] at hp
+  | load => simp [Op.plain] at hp
+  | crashSubmit _ _ _ => simp [Op.plain] at hp
+  | crashNext _ _ => simp [Op.plain] at hp
+  | restartMax _ => simp [Op.plain] at hp
+  | fail _ _ => simp [Op.plain] at hp
+
+/-- Reading "the queue bound is respected" as a **capacity** ("never more than the bound in force pending")
+contradicts "accepted batches survive a restart" when the node is restarted with a smaller bound, and it is
+not what the code does: `Load` reloads everything.  (Not a finding: durability wins; the monitor checks the
+admission reading.) -/
+def C10_bound_as_capacity : Prop :=
+  ∀ (cfg : Cfg) (ops : List Op), 0 < effMax cfg (run realKey cfg ops).st →
+    (run realKey cfg ops).st.mem.length ≤ effMax cfg (run realKey cfg ops).st
+
+theorem C10_bound_as_capacity_fails : ¬ C10_bound_as_capacity := by
+  intro h
+  have h1 := h { id := [7], max := 4 } [.submit [7] [[1]], .submit [7] [[2]], .restartMax 1] (by decide +kernel)
+  revert h1
+  decide +kernel
 
 /-- Every datastore entry is stored under the key of its own batch, that batch is pending, and the
 keys are strictly ascending (so: distinct). -/
-theorem C10_disk_subset_undelivered (key : Batch → Nat) (cfg : Cfg) (ops : List Op) :
+theorem C10_disk_subset_undelivered (key : Batch → Nat) (cfg : Cfg) (ops : List Op) (hf : NoDeleteFaults ops) :
     let s := (run key cfg ops).st
     (∀ e ∈ s.disk, e.1 = key e.2 ∧ e.2 ∈ s.mem) ∧ s.disk.Pairwise (fun x y => x.1 < y.1) := by
-  have j := J_run key cfg ops
+  have j := J_run key cfg ops hf
   refine ⟨fun e he => ⟨j.keyed e he, ?_⟩, j.sorted⟩
   obtain ⟨l, hl, hp⟩ := j.sub
   exact hl.subset ((hp.mem_iff).1 (mem_map_of_mem (f := (·.2)) he))
 
-/-- At most once, for every history (restarts, crashes at every write boundary, duplicates): no
-batch is handed out or pending more often than it was accepted.  In particular a batch that was
-handed out never reappears, and nothing that was refused is ever handed out. -/
-theorem C10_at_most_once_accounting (key : Batch → Nat) (cfg : Cfg) (ops : List Op) (x : Batch) :
+/-- At most once, for every history (restarts with any bound, crashes at every write boundary, duplicates,
+failing Puts): no batch is handed out, lost or pending more often than it was accepted.  In particular a batch
+that was handed out never reappears, and nothing that was refused is ever handed out. -/
+theorem C10_at_most_once_accounting (key : Batch → Nat) (cfg : Cfg) (ops : List Op) (hf : NoDeleteFaults ops) (x : Batch) :
     ((run key cfg ops).dlv ++ (run key cfg ops).lost ++ (run key cfg ops).st.mem).count x ≤
       (run key cfg ops).acc.count x := by
-  have h := run_induction key cfg (fun r => J key cfg r.st ∧ M r)
-    (fun r op h => ⟨J_step key h.1 op, M_step key h.1 h.2 op⟩) {} ⟨J_init key cfg, fun _ => by simp⟩ ops
+  have h := run_induction_ops key cfg (fun r => J key cfg r.st ∧ M r) (fun op => op.armsDelete = false)
+    (fun r op h hr => ⟨J_step key h.1 op hr, M_step key h.1 h.2 op hr⟩) {} ⟨J_init key cfg, fun _ => by simp⟩ ops hf
   have h2 : ((run key cfg ops).rem ++ (run key cfg ops).st.mem).count x ≤ (run key cfg ops).acc.count x := h.2 x
   have h3 := (Gh_run key cfg ops).perm.count_eq x
   simp only [count_append] at h2 h3 ⊢
   omega
 
 /-- … in the property's words (handed out = returned to the caller). -/
-theorem C10_at_most_once (key : Batch → Nat) (cfg : Cfg) (ops : List Op) (x : Batch) :
+theorem C10_at_most_once (key : Batch → Nat) (cfg : Cfg) (ops : List Op) (hf : NoDeleteFaults ops) (x : Batch) :
     ((run key cfg ops).dlv ++ (run key cfg ops).st.mem).count x ≤ (run key cfg ops).acc.count x := by
-  have := C10_at_most_once_accounting key cfg ops x
+  have := C10_at_most_once_accounting key cfg ops hf x
   simp only [count_append] at this ⊢
   omega
 
@@ -232,9 +346,9 @@ example :
 
 /-- After a restart memory is in strictly ascending key order, whatever the arrival order was
 (every key function, every history) – the mechanism behind `C10_order_full_fails`. -/
-theorem C10_reload_in_key_order (key : Batch → Nat) (cfg : Cfg) (ops : List Op) :
+theorem C10_reload_in_key_order (key : Batch → Nat) (cfg : Cfg) (ops : List Op) (hf : NoDeleteFaults ops) :
     ((run key cfg (ops ++ [.restart])).st.mem.map key).Pairwise (· < ·) := by
-  have j := J_run key cfg ops
+  have j := J_run key cfg ops hf
   have hrun : (run key cfg (ops ++ [.restart])).st = reload (run key cfg ops).st := by
     show (runFrom key cfg {} (ops ++ [.restart])).st = reload (runFrom key cfg {} ops).st
     simp [runFrom, Run.step, step]
@@ -261,7 +375,7 @@ def PendingKeysDistinct (key : Batch → Nat) (cfg : Cfg) (ops : List Op) : Prop
 
 /-- at every restart (restart / reload / crash) the pending batches are in ascending key order -/
 def PendingAscendingAtRestarts (key : Batch → Nat) (cfg : Cfg) (ops : List Op) : Prop :=
-  ∀ n, (h : n < ops.length) → ops[n].plain = false →
+  ∀ n, (h : n < ops.length) → ops[n].reloads = true →
     ((stepCore key cfg (run key cfg (ops.take n)).st ops[n]).mem.map key).Pairwise (· < ·)
 
 /-- no `Next` died between its durable `Delete` and its return on a batch -/
@@ -293,7 +407,7 @@ private theorem distinct_split {key : Batch → Nat} {cfg : Cfg} {ops : List Op}
   rwa [h1, h2] at this
 
 private theorem ascending_split {key : Batch → Nat} {cfg : Cfg} {ops : List Op} (ha : PendingAscendingAtRestarts key cfg ops) :
-    ∀ pre op post, ops = pre ++ op :: post → op.plain = false →
+    ∀ pre op post, ops = pre ++ op :: post → op.reloads = true →
       ((stepCore key cfg (run key cfg pre).st op).mem.map key).Pairwise (· < ·) := by
   intro pre op post he hp
   obtain ⟨h, h1, h2⟩ := at_split he
@@ -310,14 +424,14 @@ def Accounted (key : Batch → Nat) (cfg : Cfg) (ops : List Op) : Prop :=
 /-- PARTIAL (excludes the duplicate witness), queue side: if no two batches with the same key are
 pending at the same time, then after every history – restarts and crashes before/after every durable
 write included – the accounting is right. -/
-theorem C10_accounted_partial (key : Batch → Nat) (cfg : Cfg) (ops : List Op)
+theorem C10_accounted_partial (key : Batch → Nat) (cfg : Cfg) (ops : List Op) (hf : NoDeleteFaults ops)
     (hd : PendingKeysDistinct key cfg ops) : Accounted key cfg ops :=
-  have k := K_run key cfg ops (distinct_split hd)
+  have k := K_run key cfg ops hf (distinct_split hd)
   ⟨k.multiset, k.disk⟩
 
 /-- SHARP: the hypothesis is necessary – the accounting is right after every prefix of a history
 **iff** no two batches with the same key were ever pending at the same time. -/
-theorem C10_accounted_sharp (key : Batch → Nat) (cfg : Cfg) (ops : List Op) :
+theorem C10_accounted_sharp (key : Batch → Nat) (cfg : Cfg) (ops : List Op) (hf : NoDeleteFaults ops) :
     (∀ n, n ≤ ops.length → Accounted key cfg (ops.take n)) ↔ PendingKeysDistinct key cfg ops := by
   constructor
   · intro h n hn
@@ -327,9 +441,9 @@ theorem C10_accounted_sharp (key : Batch → Nat) (cfg : Cfg) (ops : List Op) :
     rw [ht] at h1
     unfold Accounted at h1
     rw [run_snoc] at h1
-    exact nodup_necessary key (J_run key cfg _) _ h0.1 h1.1 h1.2
+    exact nodup_necessary key (J_run key cfg _ (hf.take n)) _ (hf _ (getElem_mem hn)) h0.1 h1.1 h1.2
   · intro hd n _
-    refine C10_accounted_partial key cfg _ (fun m hm => ?_)
+    refine C10_accounted_partial key cfg _ (hf.take n) (fun m hm => ?_)
     have hm' : m < ops.length := by simp at hm; omega
     have hlt : m < n := by simp at hm; omega
     have := hd m hm'
@@ -342,17 +456,17 @@ batches with the same key are pending at the same time and no `Next` died betwee
 return, then after every history handed out ++ pending is a permutation of accepted (every accepted
 batch survives, exactly once; none reappears after having been handed out), and the datastore holds
 exactly the pending batches. -/
-theorem C10_restart_partial (key : Batch → Nat) (cfg : Cfg) (ops : List Op)
+theorem C10_restart_partial (key : Batch → Nat) (cfg : Cfg) (ops : List Op) (hf : NoDeleteFaults ops)
     (hd : PendingKeysDistinct key cfg ops) (hc : NoCrashBetweenDeleteAndReturn key cfg ops) :
     ((run key cfg ops).dlv ++ (run key cfg ops).st.mem).Perm (run key cfg ops).acc ∧
     ((run key cfg ops).st.disk.map (·.2)).Perm (run key cfg ops).st.mem := by
-  have h := C10_accounted_partial key cfg ops hd
+  have h := C10_accounted_partial key cfg ops hf hd
   rw [dlv_eq_rem (Gh_run key cfg ops) hc]
   exact h
 
 /-- the hypothesis used before (keys of *all* accepted batches pairwise distinct, over the whole
 history) implies the sharp one … -/
-theorem distinct_of_all_keys_distinct (key : Batch → Nat) (cfg : Cfg) (ops : List Op)
+theorem distinct_of_all_keys_distinct (key : Batch → Nat) (cfg : Cfg) (ops : List Op) (hf : NoDeleteFaults ops)
     (hn : ((run key cfg ops).acc.map key).Nodup) : PendingKeysDistinct key cfg ops := by
   have hk : ∀ n, n ≤ ops.length → Accounted key cfg (ops.take n) := by
     intro n _
@@ -364,35 +478,35 @@ theorem distinct_of_all_keys_distinct (key : Batch → Nat) (cfg : Cfg) (ops : L
       rw [this] at ht
       rw [ht] at hn
       exact nodup_keys_prefix key _ t hn
-    have k := K_run_of_nodup key cfg _ hp
+    have k := K_run_of_nodup key cfg _ (hf.take n) hp
     exact ⟨k.multiset, k.disk⟩
-  exact (C10_accounted_sharp key cfg ops).1 hk
+  exact (C10_accounted_sharp key cfg ops hf).1 hk
 
 /-- … so the earlier form follows: distinct keys over the whole history. -/
-theorem C10_restart_partial_distinct_keys (key : Batch → Nat) (cfg : Cfg) (ops : List Op)
+theorem C10_restart_partial_distinct_keys (key : Batch → Nat) (cfg : Cfg) (ops : List Op) (hf : NoDeleteFaults ops)
     (hn : ((run key cfg ops).acc.map key).Nodup) (hc : NoCrashBetweenDeleteAndReturn key cfg ops) :
     ((run key cfg ops).dlv ++ (run key cfg ops).st.mem).Perm (run key cfg ops).acc ∧
     ((run key cfg ops).st.disk.map (·.2)).Perm (run key cfg ops).st.mem :=
-  C10_restart_partial key cfg ops (distinct_of_all_keys_distinct key cfg ops hn) hc
+  C10_restart_partial key cfg ops hf (distinct_of_all_keys_distinct key cfg ops hf hn) hc
 
 /-- The same in the property's words: the contents are pairwise distinct and the hash does not
 collide on them. -/
-theorem C10_restart_partial' (key : Batch → Nat) (cfg : Cfg) (ops : List Op)
+theorem C10_restart_partial' (key : Batch → Nat) (cfg : Cfg) (ops : List Op) (hf : NoDeleteFaults ops)
     (hd : (run key cfg ops).acc.Nodup)
     (keyNoCollision : ∀ a ∈ (run key cfg ops).acc, ∀ b ∈ (run key cfg ops).acc, key a = key b → a = b)
     (hc : NoCrashBetweenDeleteAndReturn key cfg ops) :
     ((run key cfg ops).dlv ++ (run key cfg ops).st.mem).Perm (run key cfg ops).acc ∧
     ((run key cfg ops).st.disk.map (·.2)).Perm (run key cfg ops).st.mem := by
-  refine C10_restart_partial_distinct_keys key cfg ops ?_ hc
+  refine C10_restart_partial_distinct_keys key cfg ops hf ?_ hc
   rw [Nodup, pairwise_map]
   exact Pairwise.imp_of_mem (fun ha hb hne hk => hne (keyNoCollision _ ha _ hb hk)) hd
 
 /-- Under the sharp hypothesis no two pending batches are equal (nothing is pending twice); with
 distinct keys over the whole history nothing is both handed out and pending or handed out twice. -/
-theorem C10_no_reappearance_partial (key : Batch → Nat) (cfg : Cfg) (ops : List Op)
+theorem C10_no_reappearance_partial (key : Batch → Nat) (cfg : Cfg) (ops : List Op) (hf : NoDeleteFaults ops)
     (hn : ((run key cfg ops).acc.map key).Nodup) :
     ((run key cfg ops).dlv ++ (run key cfg ops).lost ++ (run key cfg ops).st.mem).Nodup := by
-  have hp := (C10_accounted_partial key cfg ops (distinct_of_all_keys_distinct key cfg ops hn)).1
+  have hp := (C10_accounted_partial key cfg ops hf (distinct_of_all_keys_distinct key cfg ops hf hn)).1
   have hg := (Gh_run key cfg ops).perm
   have hp2 : ((run key cfg ops).dlv ++ (run key cfg ops).lost ++ (run key cfg ops).st.mem).Perm (run key cfg ops).acc :=
     (hg.symm.append_right _).trans hp
@@ -430,36 +544,36 @@ example :
 equal keys are pending at the same time, the pending batches are in ascending key order at every
 restart, and no `Next` died between `Delete` and return, then after every history – restarts and
 crashes included – handed out ++ pending = accepted as sequences. -/
-theorem C10_order_partial (key : Batch → Nat) (cfg : Cfg) (ops : List Op)
+theorem C10_order_partial (key : Batch → Nat) (cfg : Cfg) (ops : List Op) (hf : NoDeleteFaults ops)
     (hd : PendingKeysDistinct key cfg ops) (ha : PendingAscendingAtRestarts key cfg ops)
     (hc : NoCrashBetweenDeleteAndReturn key cfg ops) :
     (run key cfg ops).dlv ++ (run key cfg ops).st.mem = (run key cfg ops).acc := by
   rw [dlv_eq_rem (Gh_run key cfg ops) hc]
-  exact (A_run key cfg ops (distinct_split hd) (ascending_split ha)).fifo
+  exact (A_run key cfg ops hf (distinct_split hd) (ascending_split ha)).fifo
 
 /-- queue side, without the crash-window hypothesis: removed ++ pending = accepted as sequences -/
-theorem C10_order_removed_partial (key : Batch → Nat) (cfg : Cfg) (ops : List Op)
+theorem C10_order_removed_partial (key : Batch → Nat) (cfg : Cfg) (ops : List Op) (hf : NoDeleteFaults ops)
     (hd : PendingKeysDistinct key cfg ops) (ha : PendingAscendingAtRestarts key cfg ops) :
     (run key cfg ops).rem ++ (run key cfg ops).st.mem = (run key cfg ops).acc :=
-  (A_run key cfg ops (distinct_split hd) (ascending_split ha)).fifo
+  (A_run key cfg ops hf (distinct_split hd) (ascending_split ha)).fifo
 
 /-- SHARP: "the datastore holds exactly the pending batches and removed ++ pending = accepted in
 order, after every prefix of the history" holds **iff** both hypotheses hold. -/
-theorem C10_order_sharp (key : Batch → Nat) (cfg : Cfg) (ops : List Op) :
+theorem C10_order_sharp (key : Batch → Nat) (cfg : Cfg) (ops : List Op) (hf : NoDeleteFaults ops) :
     (∀ n, n ≤ ops.length → Accounted key cfg (ops.take n) ∧
       (run key cfg (ops.take n)).rem ++ (run key cfg (ops.take n)).st.mem = (run key cfg (ops.take n)).acc) ↔
     (PendingKeysDistinct key cfg ops ∧ PendingAscendingAtRestarts key cfg ops) := by
   constructor
   · intro h
-    refine ⟨(C10_accounted_sharp key cfg ops).1 (fun n hn => (h n hn).1), fun n hn hp => ?_⟩
+    refine ⟨(C10_accounted_sharp key cfg ops hf).1 (fun n hn => (h n hn).1), fun n hn hp => ?_⟩
     have h0 := (h n (Nat.le_of_lt hn)).2
     have h1 := (h (n + 1) hn).2
     have ht : ops.take (n + 1) = ops.take n ++ [ops[n]] := take_succ_eq_append_getElem hn
     rw [ht, run_snoc] at h1
-    exact ascending_necessary key (J_run key cfg _) _ hp h0 h1
+    exact ascending_necessary key (J_run key cfg _ (hf.take n)) _ (hf _ (getElem_mem hn)) hp h0 h1
   · intro ⟨hd, ha⟩ n hn
-    refine ⟨(C10_accounted_sharp key cfg ops).2 hd n hn, ?_⟩
-    refine C10_order_removed_partial key cfg _ (fun m hm => ?_) (fun m hm hp => ?_)
+    refine ⟨(C10_accounted_sharp key cfg ops hf).2 hd n hn, ?_⟩
+    refine C10_order_removed_partial key cfg _ (hf.take n) (fun m hm => ?_) (fun m hm hp => ?_)
     · have hm' : m < ops.length := by simp at hm; omega
       have := hd m hm'
       have e1 : (ops.take n).take m = ops.take m := by rw [take_take]; congr 1; simp at hm; omega
@@ -472,11 +586,11 @@ theorem C10_order_sharp (key : Batch → Nat) (cfg : Cfg) (ops : List Op) :
       rwa [e1, e2]
 
 /-- the earlier form follows: keys of all accepted batches strictly ascending in acceptance order -/
-theorem C10_order_partial_ascending_keys (key : Batch → Nat) (cfg : Cfg) (ops : List Op)
+theorem C10_order_partial_ascending_keys (key : Batch → Nat) (cfg : Cfg) (ops : List Op) (hf : NoDeleteFaults ops)
     (hn : ((run key cfg ops).acc.map key).Pairwise (· < ·)) (hc : NoCrashBetweenDeleteAndReturn key cfg ops) :
     (run key cfg ops).dlv ++ (run key cfg ops).st.mem = (run key cfg ops).acc := by
   rw [dlv_eq_rem (Gh_run key cfg ops) hc]
-  exact (A_run_of_ascending key cfg ops hn).fifo
+  exact (A_run_of_ascending key cfg ops hf hn).fifo
 
 /-- sharpness on the existing witness: the order history violates `PendingAscendingAtRestarts` only -/
 example :
@@ -499,7 +613,7 @@ example :
 equal keys pending at the same time, pending keys ascending at every restart), after every history
 every accepted batch has been handed out – **returned to the caller** – or is still pending. -/
 def C10_exactly_once_across_crash_full : Prop :=
-  ∀ (cfg : Cfg) (ops : List Op), PendingKeysDistinct realKey cfg ops → PendingAscendingAtRestarts realKey cfg ops →
+  ∀ (cfg : Cfg) (ops : List Op), NoDeleteFaults ops → PendingKeysDistinct realKey cfg ops → PendingAscendingAtRestarts realKey cfg ops →
     ((run realKey cfg ops).dlv ++ (run realKey cfg ops).st.mem).Perm (run realKey cfg ops).acc
 
 /-- FALSE of the current code: `Next` deletes the write-ahead record before it returns
@@ -509,7 +623,7 @@ not on disk, not handed out (known finding
 `C10/durable/batch-lost-in-crash-after-delete-before-return`). -/
 theorem C10_exactly_once_across_crash_full_fails : ¬ C10_exactly_once_across_crash_full := by
   intro h
-  have h1 := (h {} [.submit [] a1, .crashNext true []] (by decide +kernel) (by decide +kernel)).length_eq
+  have h1 := (h {} [.submit [] a1, .crashNext true []] (by decide) (by decide +kernel) (by decide +kernel)).length_eq
   revert h1
   decide +kernel
 
@@ -527,30 +641,99 @@ example :
 
 /-- Exact accounting (needs only `PendingKeysDistinct`): every accepted batch is, exactly once, handed
 out, or lost in the window between `Delete` and return, or pending. -/
-theorem C10_accounting_with_lost_partial (key : Batch → Nat) (cfg : Cfg) (ops : List Op)
+theorem C10_accounting_with_lost_partial (key : Batch → Nat) (cfg : Cfg) (ops : List Op) (hf : NoDeleteFaults ops)
     (hd : PendingKeysDistinct key cfg ops) :
     ((run key cfg ops).dlv ++ (run key cfg ops).lost ++ (run key cfg ops).st.mem).Perm (run key cfg ops).acc :=
-  ((Gh_run key cfg ops).perm.symm.append_right _).trans (C10_accounted_partial key cfg ops hd).1
+  ((Gh_run key cfg ops).perm.symm.append_right _).trans (C10_accounted_partial key cfg ops hf hd).1
 
 /-- PARTIAL (excludes exactly that crash point), and sharp: under `PendingKeysDistinct`, handed out ++
 pending is a permutation of accepted **iff** no `Next` died between its `Delete` and its return. -/
-theorem C10_exactly_once_across_crash_partial (key : Batch → Nat) (cfg : Cfg) (ops : List Op)
+theorem C10_exactly_once_across_crash_partial (key : Batch → Nat) (cfg : Cfg) (ops : List Op) (hf : NoDeleteFaults ops)
     (hd : PendingKeysDistinct key cfg ops) :
     ((run key cfg ops).dlv ++ (run key cfg ops).st.mem).Perm (run key cfg ops).acc ↔
       NoCrashBetweenDeleteAndReturn key cfg ops := by
   constructor
   · intro h
-    have h2 := (C10_accounting_with_lost_partial key cfg ops hd).length_eq
+    have h2 := (C10_accounting_with_lost_partial key cfg ops hf hd).length_eq
     have h1 := h.length_eq
     simp only [length_append] at h1 h2
     exact length_eq_zero_iff.1 (by omega)
-  · exact fun hc => (C10_restart_partial key cfg ops hd hc).1
+  · exact fun hc => (C10_restart_partial key cfg ops hf hd hc).1
 
 /-- what is handed out is always a subsequence of what was removed, and removed = handed out + lost -/
 theorem C10_delivered_sub_removed (key : Batch → Nat) (cfg : Cfg) (ops : List Op) :
     (run key cfg ops).dlv.Sublist (run key cfg ops).rem ∧
     (run key cfg ops).rem.Perm ((run key cfg ops).dlv ++ (run key cfg ops).lost) :=
   ⟨(Gh_run key cfg ops).sub, (Gh_run key cfg ops).perm⟩
+
+/-! ## 5b. a restart with another queue bound (`restart max=n`)
+
+`.restartMax n` is an ordinary restarting operation of a history, so every theorem above already covers it
+(with **any** `n`, smaller than the number of pending batches included): `C10_restart_partial`,
+`C10_order_partial`, the sharpness theorems.  Spelled out for one restart: -/
+
+/-- A restart with **any** bound brings back exactly the pending batches (as a multiset; in the same order
+when their keys are ascending) – `Load` does not look at the bound. -/
+theorem C10_restart_any_bound_keeps_pending (key : Batch → Nat) (cfg : Cfg) (ops : List Op) (n : Nat)
+    (hf : NoDeleteFaults ops) (hd : PendingKeysDistinct key cfg ops) :
+    (run key cfg (ops ++ [.restartMax n])).st.mem.Perm (run key cfg ops).st.mem ∧
+    (((run key cfg ops).st.mem.map key).Pairwise (· < ·) →
+      (run key cfg (ops ++ [.restartMax n])).st.mem = (run key cfg ops).st.mem) := by
+  have k := K_run key cfg ops hf (distinct_split hd)
+  have j := J_run key cfg ops hf
+  have hst : (run key cfg (ops ++ [.restartMax n])).st.mem = (run key cfg ops).st.disk.map (·.2) := by
+    rw [run_snoc]; rfl
+  rw [hst]
+  exact ⟨k.disk, fun ha => eq_of_perm_ascending key k.disk (sorted_keys key j.keyed j.sorted) ha⟩
+
+/-- non-vacuity: three batches accepted under bound 4 (submitted in key order), the node is restarted with
+bound 1: all three are still pending, in order, and are handed out; further submissions are refused while
+more than the new bound are pending -/
+example :
+    let ops : List Op := [.submit [7] a2, .submit [7] a1, .submit [7] a3, .restartMax 1, .submit [7] [[9]], .next [7], .next [7],
+      .next [7], .submit [7] [[9]]]
+    let r := run realKey { id := [7], max := 4 } ops
+    NoDeleteFaults ops ∧ PendingKeysDistinct realKey { id := [7], max := 4 } ops ∧
+    PendingAscendingAtRestarts realKey { id := [7], max := 4 } ops ∧
+    r.outs = [.ok, .ok, .ok, .restarted, .errFull, .batch a2, .batch a1, .batch a3, .ok] ∧
+    r.dlv = [a2, a1, a3] ∧ r.st.mem = [[[9]]] := by decide +kernel
+
+/-! ## 5c. datastore errors (outside the property's quantifier; modelled so that the correspondence holds)
+
+`fail put=p del=d` arms the datastore double: the next `p` single Puts / `d` single Deletes fail.
+A failing `Put`: `AddBatch` returns the error, the batch is not in memory (`C10_store_error_no_trace`); such
+faults are allowed in **every** theorem above (`NoDeleteFaults` excludes only failing Deletes).
+A failing `Delete`: `Next` logs it and hands the batch out; the record stays. -/
+
+/-- Within one process lifetime – calls and datastore faults in any pattern, failing Puts **and** failing
+Deletes – the queue is FIFO and exactly-once: handed out ++ pending = accepted, as sequences. -/
+theorem C10_lifetime_fifo_under_faults (key : Batch → Nat) (cfg : Cfg) (ops : List Op)
+    (hl : ∀ op ∈ ops, op.lifetime = true) :
+    (run key cfg ops).dlv ++ (run key cfg ops).st.mem = (run key cfg ops).acc := by
+  have hc := lost_nil_of_no_crash key cfg ops (fun op ho => lifetime_not_crash (hl op ho))
+  rw [dlv_eq_rem (Gh_run key cfg ops) hc]
+  exact fifo_lifetime key cfg ops hl {} rfl
+
+/-- … hence at most once within one lifetime under every fault pattern. -/
+theorem C10_lifetime_at_most_once_under_faults (key : Batch → Nat) (cfg : Cfg) (ops : List Op)
+    (hl : ∀ op ∈ ops, op.lifetime = true) (x : Batch) :
+    ((run key cfg ops).dlv ++ (run key cfg ops).st.mem).count x = (run key cfg ops).acc.count x := by
+  rw [C10_lifetime_fifo_under_faults key cfg ops hl]
+
+/-- non-vacuity: a failing Put (refused with `errStore`, nothing stored, the retry succeeds) and a failing
+Delete (the batch is handed out all the same, in order; its record stays in the datastore) -/
+example :
+    let ops : List Op := [.submit [] a1, .fail 1 1, .submit [] a2, .submit [] a2, .submit [] a3, .next [], .next [], .next []]
+    let r := run realKey {} ops
+    r.outs = [.ok, .restarted, .errStore, .ok, .ok, .batch a1, .batch a2, .batch a3] ∧
+    r.acc = [a1, a2, a3] ∧ r.dlv = [a1, a2, a3] ∧ r.st.mem = [] ∧ r.st.disk = [(realKey a1, a1)] := by decide +kernel
+
+/-- What the current code does after a failed `Delete` **and a restart** (datastore errors are not in the
+property's quantifier, so this is recorded as an assumption, not as a finding): the record that could not be
+deleted is reloaded and the batch is handed out a second time. -/
+theorem C10_redelivery_after_failed_delete :
+    let r := run realKey {} [.submit [] a1, .fail 0 1, .next [], .restart, .next []]
+    r.acc = [a1] ∧ r.dlv = [a1, a1] := by decide +kernel
 
 /-! ## 6. concurrent callers (the property's `schedules`)
 
@@ -592,15 +775,20 @@ theorem C10_concurrent_fifo_exactly_once (key : Batch → Nat) (cfg : Cfg) (prog
     intro op ho
     obtain ⟨p, hp1, hp2⟩ := mem_flatten.1 ((hs.perm.mem_iff).1 ho)
     exact hp p hp1 op hp2
-  exact ⟨C10_fifo_exactly_once_no_restart key cfg sched hpl, fun hm => C10_bound key cfg sched hm,
+  have hnf : NoDeleteFaults sched := fun op ho => by have := hpl op ho; cases op <;> first | rfl | simp [Op.plain] at this
+  have hbu : BoundUnchanged sched := fun op ho => by have := hpl op ho; cases op <;> first | rfl | simp [Op.plain] at this
+  exact ⟨C10_fifo_exactly_once_no_restart key cfg sched hpl, fun hm => C10_bound key cfg sched hm hnf hbu,
     sched, hs, C10_refines_fifo key cfg sched hpl⟩
 
 /-- … and with restarts and crashes among the concurrent calls: at most once, and the accounting under
 the sharp hypothesis on the schedule that happened. -/
 theorem C10_concurrent_at_most_once (key : Batch → Nat) (cfg : Cfg) (progs : List (List Op)) (r : Run)
-    (hc : Conc key cfg progs {} r) (x : Batch) : (r.dlv ++ r.st.mem).count x ≤ r.acc.count x := by
-  obtain ⟨sched, _, rfl⟩ := (C10_concurrent_is_sequential key cfg progs r).1 hc
-  exact C10_at_most_once key cfg sched x
+    (hc : Conc key cfg progs {} r) (hf : ∀ p ∈ progs, NoDeleteFaults p) (x : Batch) :
+    (r.dlv ++ r.st.mem).count x ≤ r.acc.count x := by
+  obtain ⟨sched, hs, rfl⟩ := (C10_concurrent_is_sequential key cfg progs r).1 hc
+  refine C10_at_most_once key cfg sched (fun op ho => ?_) x
+  obtain ⟨p, hp1, hp2⟩ := mem_flatten.1 ((hs.perm.mem_iff).1 ho)
+  exact hf p hp1 op hp2
 
 /-- non-vacuity: two writers (equal contents among them) and one reader; one concurrent execution -/
 example :
